@@ -297,6 +297,11 @@ class Model(HoloPyObject):
         """
         Internal function taking pars as a list only
         """
+        # values outside their supports first: substituting them may not even
+        # be possible (e.g. a radius written as 1 / parameter at 0)
+        lnprior = sum([p.lnprob(val) for p, val in zip(self._parameters, pars)])
+        if lnprior == -np.inf:
+            return lnprior
         if 'scatterer' in self._maps:
             try:
                 par_scat = self._scatterer_from_parameters(pars)
@@ -306,7 +311,7 @@ class Model(HoloPyObject):
         for constraint in self.constraints:
             if not constraint.check(par_scat):
                 return -np.inf
-        return sum([p.lnprob(val) for p, val in zip(self._parameters, pars)])
+        return lnprior
 
     def lnposterior(self, pars, data, pixels=None):
         """
